@@ -421,7 +421,7 @@ func c16Run(out *verifkit.Out, p *c16Params) {
 		if runErr != nil {
 			out.T("done", "0 err")
 		} else {
-			out.T("done", fmt.Sprintf("%d %d", len(c.callbacks), scanRet))
+			out.T(fmt.Sprintf("done ret=%d", scanRet), fmt.Sprintf("%d", len(c.callbacks)))
 		}
 	} else {
 		if runErr != nil {
@@ -732,7 +732,7 @@ func TestVerifC16(t *testing.T) {
 	for it := 0; it < verifkit.N(2, 6); it++ {
 		p := c16Gen(r.Fork(), it)
 		p.id = fmt.Sprintf("sb%d", it)
-		p.scan, p.cont, p.end, p.cancelAt, p.matcher, p.mName, p.target, p.preOnly = false, true, 0, 0, nil, "", -1, false
+		p.scan, p.cont, p.end, p.cancelAt, p.matcher, p.mName, p.target, p.preOnly, p.failFrom = false, true, 0, 0, nil, "", -1, false, -1
 		p.size0 = int64(r.Intn(40))
 		p.start = p.size0 + 1 + int64(r.Intn(20))
 		p.growth = nil
